@@ -311,6 +311,7 @@ fn scenario_contract(args: &Args, report: &mut Report) {
     let sent_total: u64 = clients.iter().map(|c| c.lock().unwrap().sent).sum::<u64>() - sent_base + port0_sent;
     let quiescent = vcore::net::wait_until(10_000, || counter("udp.datagram_seen") - seen_base >= sent_total);
     let seen = counter("udp.datagram_seen") - seen_base;
+    let quiescent = quiescent && wait_socket_loops(2, 30_000);
     for (ci, c) in clients.iter().enumerate() {
         let c = c.lock().unwrap();
         let mut l = logs.lock().unwrap();
@@ -469,6 +470,7 @@ impl Seq {
 /// one request, at most one reply (waits up to `ms`)
 fn ask(c: &mut Client, bytes: &[u8], ms: u64) -> Option<RefResponse> {
     let tid = if bytes.len() >= 16 { i32::from_be_bytes(bytes[12..16].try_into().unwrap()) } else { 0 };
+    let seen0 = counter("udp.datagram_seen");
     c.send(bytes).ok()?;
     let v4 = c.is_v4_source();
     let t0 = std::time::Instant::now();
@@ -479,8 +481,24 @@ fn ask(c: &mut Client, bytes: &[u8], ms: u64) -> Option<RefResponse> {
             }
         }
     }
+    // No reply within the expected time. "Never answered" is decided by the tracker's own progress, not by the
+    // clock: the datagram must have been counted as seen and every socket worker must have completed two further
+    // loop iterations; a reply that exists is in our socket buffer by then.
+    let seen = vcore::net::wait_until(30_000, || counter("udp.datagram_seen") > seen0);
+    if !seen || !wait_socket_loops(2, 30_000) {
+        vudp::live::UNDECIDED.fetch_add(1, std::sync::atomic::Ordering::SeqCst);
+        return None;
+    }
+    for (b, _) in c.drain(Duration::from_millis(30)) {
+        if b.len() >= 8 && i32::from_be_bytes(b[4..8].try_into().unwrap()) == tid {
+            ASK_LATE.fetch_add(1, std::sync::atomic::Ordering::SeqCst);
+            return decode_response(&b, v4);
+        }
+    }
     None
 }
+
+static ASK_LATE: std::sync::atomic::AtomicU64 = std::sync::atomic::AtomicU64::new(0);
 
 fn peers_of(r: &Option<RefResponse>) -> Option<(i32, i32, BTreeSet<(IpAddr, u16)>)> {
     match r {
@@ -1019,6 +1037,7 @@ fn scenario_buffers(args: &Args, report: &mut Report) {
 
 fn main() {
     vcore::init_logger_from_env();
+    vudp::live::install_loop_counter();
     let args = Args::parse();
     let scenario = args.str("scenario", "contract");
     let mut report = Report::new(
@@ -1035,5 +1054,10 @@ fn main() {
         "buffers" => scenario_buffers(&args, &mut report),
         other => report.inconclusive(format!("unknown scenario {}", other)),
     }
+    let undecided = vudp::live::UNDECIDED.load(std::sync::atomic::Ordering::SeqCst);
+    if undecided > 0 {
+        report.inconclusive(format!("{} request(s) could not be decided: the tracker never counted them as seen or its workers made no progress within 30 s", undecided));
+    }
+    report.add("replies_that_arrived_after_the_expected_time(decided by worker progress)", ASK_LATE.load(std::sync::atomic::Ordering::SeqCst));
     report.finish(&args.out());
 }
